@@ -53,6 +53,8 @@ Bad(e) ==
            /\ e.out # ret'.b
           THEN {"C20.read"} ELSE {})
   \cup (IF ~rerr' /\ e.rem # Len(rin') THEN {"C20.rem"} ELSE {})
+  \* ORBytes: the unread input, as an observation (the reads that follow still find it)
+  \cup (IF "looked" \in DOMAIN e /\ e.looked /\ e.rest # (IF rerr' THEN <<>> ELSE rin') THEN {"C20.rest"} ELSE {})
   \cup (IF rerr /\ e.err # rmsg THEN {"C20.sticky.r"} ELSE {})
   \cup (IF e.stale THEN {"C20.earlier_result_changed"} ELSE {})    \* a value read earlier no longer reads the same
   \cup (IF /\ e.mi > 0 /\ ~rerr' /\ CleanUpTo(e.mi)
